@@ -199,13 +199,14 @@ class _Book(PyModel):
 
 
 class _Sheet(PyModel):
-    def __init__(self, cells, title='', names=None):
+    def __init__(self, cells, title='', names=None, state='visible'):
         self._cells = cells
         self.title = title
         self.defined_names = names or {}         # openpyxl >= 3.1: names whose scope is this sheet
+        self.sheet_state = state                 # 'visible' | 'hidden' | 'veryHidden'
 
 
-def _book(sheets, names, cached=None):
+def _book(sheets, names, cached=None, hidden=None):
     """sheets: {sheet: {coordinate: native constant | '=formula'}}; names: {name: 'Sheet!$A$1', (sheet, name): target of a name scoped to that sheet}; cached: {'Sheet!A1': cached result}"""
     import re
     out = {}
@@ -222,7 +223,7 @@ def _book(sheets, names, cached=None):
                 cell = Rec(coordinate=coord, data_type='b' if isinstance(v, bool) else ('n' if isinstance(v, (int, float)) else 's'), value=v, cvalue=None)
             d[(int(m.group(2)), col)] = cell
         local = {n[1]: Rec(name=n[1], value=t, hidden=None) for n, t in (names or {}).items() if isinstance(n, tuple) and n[0] == sname}
-        out[sname] = _Sheet(dict(sorted(d.items())), sname, local)
+        out[sname] = _Sheet(dict(sorted(d.items())), sname, local, (hidden or {}).get(sname, 'visible'))
     return _Book(out, {n: Rec(name=n, value=t, hidden=None) for n, t in (names or {}).items() if not isinstance(n, tuple)})
 
 
@@ -242,7 +243,7 @@ def _short(cells, limit=420):
 
 
 class Workbook:
-    def __init__(self, ctx, cells=None, models=None, world=None, sheets=None, names=None, cached=None, ignore_sheets=None, max_items=None, max_depth=None):
+    def __init__(self, ctx, cells=None, models=None, world=None, sheets=None, names=None, cached=None, ignore_sheets=None, max_items=None, max_depth=None, hidden=None, ignore_hidden=None):
         self.ctx = ctx
         self.world = world if world is not None else World()
         self.world.max_depth = max_depth or 150
@@ -262,10 +263,12 @@ class Workbook:
         mm = ctx.mod('model')
         if sheets is not None:
             # the xlsx path: Reader over a modelled openpyxl workbook, parse_archive (defined names, ranges), build_code
-            book = _book(sheets, names, cached)
-            self.models.setdefault('ext:openpyxl.load_workbook', lambda *a, **k: book)
+            book = _book(sheets, names, cached, hidden)
+            self.models['ext:openpyxl.load_workbook'] = lambda *a, **k: book
             self.models.setdefault('pkg:patch:openpyxl_WorksheetReader_patch', lambda *a, **k: None)
-            if ignore_sheets is None:
+            if ignore_hidden is not None:
+                out = self._run(mm, {'h': ignore_hidden}, 'c = ModelCompiler()\nreturn c.read_and_parse_archive("witness.xlsx", ignore_hidden=h)')
+            elif ignore_sheets is None:
                 out = self._run(mm, {}, 'c = ModelCompiler()\nreturn c.read_and_parse_archive("witness.xlsx")')
             else:
                 out = self._run(mm, {'ign': list(ignore_sheets)}, 'c = ModelCompiler()\nreturn c.read_and_parse_archive("witness.xlsx", ignore_sheets=ign)')
